@@ -110,6 +110,7 @@ class Program:
         self.modules: Dict[str, Module] = {}
         self.classes: Dict[str, ClassInfo] = {}
         self.functions: Dict[str, FuncInfo] = {}
+        self.normalised: Dict[str, Dict[str, int]] = {}  # A-NORM statistics per file
         self._load()
 
     # ------------------------------------------------------------------ loading
@@ -124,6 +125,9 @@ class Program:
                 tree = ast.parse(src, filename=path)
             except SyntaxError as exc:
                 raise AnalysisError(f"cannot parse {path}: {exc}") from exc
+            from .normalise import normalise
+
+            self.normalised[fn] = normalise(tree)
             name = fn[:-3]
             mod = Module(
                 name=name,
